@@ -79,10 +79,12 @@ def file_content(fi: Dict[str, Any]) -> Tuple[bytes, Optional[List[Tuple[
         return bytes(data), None
 
     bounds = [0] + [c for c in sorted(set(cuts)) if 0 < c < size] + [size]
+    segs = list(zip(bounds, bounds[1:]))
     ranges = []
-    is_data = bool(fi.get('first_data', True))
+    # segments alternate data/hole counted from the end of the file
+    is_data = bool(fi.get('last_data', True))
 
-    for lo, hi in zip(bounds, bounds[1:]):
+    for lo, hi in reversed(segs):
         if hi > lo:
             if is_data:
                 ranges.append((lo, hi - lo))
@@ -91,6 +93,7 @@ def file_content(fi: Dict[str, Any]) -> Tuple[bytes, Optional[List[Tuple[
 
         is_data = not is_data
 
+    ranges.reverse()
     return bytes(data), ranges
 
 
@@ -439,7 +442,7 @@ def xfer_strategy(tier: str):
                                       CAP_BYTES if nfiles == 1 else 40000,
                                       unit))
             fi = {'size': size, 'seed': draw(st.integers(0, 250)),
-                  'cuts': None, 'first_data': True, 'true_len': None}
+                  'cuts': None, 'last_data': True, 'true_len': None}
 
             if ranges and size and draw(st.booleans()):
                 near = sorted({min(max(v, 0), size) for v in
@@ -448,7 +451,7 @@ def xfer_strategy(tier: str):
                 fi['cuts'] = sorted(set(draw(st.lists(
                     st.one_of(st.integers(0, size), st.sampled_from(near)),
                     min_size=1, max_size=6))))
-                fi['first_data'] = draw(st.booleans())
+                fi['last_data'] = draw(st.integers(0, 3)) > 0
 
             if op not in ('put', 'mput') and not copy_data and size and \
                     draw(st.integers(0, 5)) == 0:
@@ -1102,6 +1105,9 @@ def run_real(case) -> CaseResult:
                     os.path.join(root, 'dst')
                 coro = sftp.copy('src', 'dst', **kw)
                 labels.add('copy-data')
+
+                if fi.get('size', 0) > 262144:
+                    labels.add('copy-data>256k')
             else:
                 raise HarnessError('unknown op ' + op)
 
@@ -1188,12 +1194,24 @@ def real_strategy(tier: str):
                   'tail': draw(st.sampled_from([0, 0, 1, 100, 4095])),
                   'tail_data': draw(st.booleans()),
                   'seed': draw(st.integers(0, 250))}
+
+            if draw(st.integers(0, 3)) > 0:
+                # mostly end in data: a trailing hole runs into a recorded
+                # defect and ends the case there
+                fi['pages'][-1] = True
+                fi['tail_data'] = True
         else:
             bs = draw(st.sampled_from(BLOCK_SIZES + [-1]))
             fi = {'size': draw(size_strategy(
                 bs, mr if mr > 0 else 128, 100000,
                 cost_unit(bs if bs > 0 else 16384, None, short))),
                   'seed': draw(st.integers(0, 250))}
+
+            if op == 'copy' and draw(st.integers(0, 2)) == 0:
+                # the server copies in 256 KiB pieces (one request per data
+                # range, so the cost does not depend on block_size)
+                fi['size'] = draw(st.sampled_from(
+                    [262143, 262144, 262145, 524288, 524289, 600000]))
 
         return {'op': op, 'version': version, 'short': short, 'bs': bs,
                 'mr': mr, 'sparse': draw(st.booleans()), 'file': fi}
@@ -1372,7 +1390,7 @@ FAMILIES = [
            budget={'quick': 640, 'thorough': 8000},
            required={'all': ['op-get', 'op-put', 'op-copy', 'op-file',
                              'sparse-holes', 'short-read-continued',
-                             'v3', 'v4', 'v5', 'v6']},
+                             'copy-data>256k', 'v3', 'v4', 'v5', 'v6']},
            timeout_is_violation=True, case_timeout=120),
     Family('openssh-sftp', run_openssh, strategy=openssh_strategy,
            budget={'quick': 40, 'thorough': 300},
